@@ -48,6 +48,8 @@ var c10Attacks = []struct{ name, js string }{
 	{"props-nested", `_.props.cfg.x = 42;`},
 	{"frozen", `Object.freeze(Object.prototype); Object.freeze(Array.prototype);`},
 	{"define", `Object.defineProperty(Object.prototype, "sneaky", {get: function() { return "S"; }});`},
+	{"props-proto", `var pp = Object.getPrototypeOf(_.props); if (pp) { pp.mid = "evil"; pp.extra = 1; } if (_.props.__proto__) { _.props.__proto__.cfg = {"x": 42}; }`},
+	{"global-objects", `Object.getOwnPropertyNames(G).forEach(function(n) { try { var v = G[n]; if (v && typeof v === "object") { v.muted = true; if (typeof v.log === "function") { v.log = function() { return "hijacked"; }; } } } catch (e) {} });`},
 	// (extended interpreter only) whatever the matcher utility hands back is the script's to change
 	{"match-result", `var r = _.match({"zz": "?x"}, {"zz": 1}); if (r && r[0]) { if (r[0].n) { r[0].n.q = 98; } if (r[0].arr) { r[0].arr[0] = 6; } if (r[0].deep) { r[0].deep[0].added = 2; } r[0].keep = "changed"; }`},
 }
@@ -69,6 +71,14 @@ r.mid = _.props.mid;
 r.extra = typeof _.props.extra;
 r.cfgx = (_.props.cfg || {}).x; if (r.cfgx === undefined) { r.cfgx = null; } if (r.mid === undefined) { r.mid = null; }
 r.frozen = Object.isFrozen(Object.prototype);
+var gsig = [];
+Object.getOwnPropertyNames(G).sort().forEach(function(n) {
+  var v; try { v = G[n]; } catch (e) { return; }
+  if (n == "_") { return; }
+  if (v && typeof v === "object") { gsig.push(n + ":" + Object.getOwnPropertyNames(v).sort().join("|")); } else { gsig.push(n + ":" + typeof v); }
+});
+r.globals = gsig.join(";");
+r.env = Object.keys(_).sort().join(",");
 r.n = _.bindings.n; r.arr = _.bindings.arr; r.keep = _.bindings.keep; r.id = _.bindings.id; r.deep = _.bindings.deep;
 tick();
 _.out({"probe": r.leak, "id": _.bindings.id});
@@ -95,6 +105,12 @@ func c10Polluter(attacks []int) string {
 	}
 	return sb.String()
 }
+
+// c10Baseline: what a probe finds among the globals and in the environment object of a
+// runtime of this build - taken from the first probe of the executor process, before any
+// polluter has run in it (a feature that adds a global is part of the baseline; what a
+// script does to it is not).
+var c10Baseline = map[string]string{}
 
 func c10Expected(id float64, emptyProps bool) (string, string) {
 	r := map[string]interface{}{
@@ -199,8 +215,24 @@ func runC10(c *sim.Ctx, t *testing.T, concurrent bool) {
 		return
 	}
 	interp := ecmascript.NewInterpreter()
-	if c.Bool("extended") {
+	extended := c.Bool("extended")
+	if extended {
 		interp = &ecmascript.Interpreter{Extended: true}
+	}
+	baseKey := fmt.Sprint(extended) + ":"
+	if _, have := c10Baseline[baseKey+"globals"]; !have {
+		// (no simulator installed yet: this execution draws nothing and is no part of the run)
+		base := &ecmascript.Interpreter{Extended: extended}
+		exe, err := base.Exec(context.Background(), match.Bindings{"n": map[string]interface{}{"q": 1.0}, "arr": []interface{}{1.0}, "keep": "k", "id": 0.0,
+			"deep": []interface{}{map[string]interface{}{"k": []interface{}{1.0, map[string]interface{}{"z": 1.0}}}, []interface{}{1.0}}},
+			core.StepProps{"mid": "m1", "cfg": map[string]interface{}{"x": 1.0}}, c10Probe, nil)
+		if err != nil || exe == nil {
+			c.Infra = fmt.Sprint("baseline probe failed: ", err)
+			return
+		}
+		g, _ := exe.Bs["globals"].(string)
+		e, _ := exe.Bs["env"].(string)
+		c10Baseline[baseKey+"globals"], c10Baseline[baseKey+"env"] = g, e
 	}
 	ctx := context.Background()
 	// programs: one probe, 1-3 polluters
@@ -425,6 +457,19 @@ func runC10(c *sim.Ctx, t *testing.T, concurrent bool) {
 			if r.err != "" {
 				c.Violate("isolation:probe-failed", "probe %d failed with %q (executions before it: %v)", i, r.err, plan[:i])
 				continue
+			}
+			// the probe's view of the global objects and of the environment object is compared
+			// with this process's baseline, everything else with constants
+			var gm map[string]interface{}
+			if jsonUnmarshal(r.got, &gm) == nil {
+				for _, k := range []string{"globals", "env"} {
+					v, _ := gm[k].(string)
+					if want := c10Baseline[baseKey+k]; v != want {
+						c.Violate("isolation:probe-sees:"+k, "probe %d (plan %v, concurrent=%v) found %s = %q; in a runtime nobody has touched it is %q", i, plan, concurrent, k, v, want)
+					}
+					delete(gm, k)
+				}
+				r.got = ref.Canon(gm)
 			}
 			if r.got != wantBs {
 				c.Violate("isolation:probe-sees:"+c10Diff(r.got, wantBs), "probe %d (plan %v, concurrent=%v) observed %s\n  a clean runtime gives %s", i, plan, concurrent, r.got, wantBs)
